@@ -23,12 +23,12 @@ import (
 
 // DBPlan is one database-API scenario (C13).
 type DBPlan struct {
-	Backend string   `json:"backend"`
-	Conns   [][]DMsg `json:"conns"`
-	Writes  []DWrite `json:"writes,omitempty"`
-	Veto    bool     `json:"veto,omitempty"` // a pre-put hook rejects every write to one key
-	SlowQuery int `json:"slow_query,omitempty"` // >0: this many extra records are stored, and the client of the first connection stops reading for a few seconds after the first record of its first request (a query or qsub) arrived
-	Stall   int `json:"stall,omitempty"` // >0: flood scenario: the first connection's client stops reading after its first notification while another connection makes this many writes
+	Backend   string   `json:"backend"`
+	Conns     [][]DMsg `json:"conns"`
+	Writes    []DWrite `json:"writes,omitempty"`
+	Veto      bool     `json:"veto,omitempty"`       // a pre-put hook rejects every write to one key
+	SlowQuery int      `json:"slow_query,omitempty"` // >0: this many extra records are stored, and the client of the first connection stops reading for a few seconds after the first record of its first request (a query or qsub) arrived
+	Stall     int      `json:"stall,omitempty"`      // >0: flood scenario: the first connection's client stops reading after its first notification while another connection makes this many writes
 }
 
 // DMsg is one message sent on a connection.
@@ -163,11 +163,11 @@ type reply struct {
 }
 
 type reqRec struct {
-	Op   string
-	Kind string
-	Key  string
-	Body string
-	Seq  uint64
+	Op          string
+	Kind        string
+	Key         string
+	Body        string
+	Seq         uint64
 	CancelledAt uint64
 	Cancels     int
 }
@@ -187,9 +187,9 @@ type bgWrite struct {
 }
 
 type c13State struct {
-	conns  []*connState
-	dir    string
-	writes []bgWrite
+	conns      []*connState
+	dir        string
+	writes     []bgWrite
 	lateWrites []bgWrite
 }
 
